@@ -221,11 +221,11 @@ func runC17Sequential(w *core.WorkerCtx, idx int, res *core.CaseResult) {
 	m := &c17Model{cfg: map[string]bool{}, active: map[string][]string{}, drop: map[string][]string{}, explorer: map[string]bool{}}
 	hashOfTid := map[string]uint64{}
 	type snap struct {
-		step          int
-		act, drop     map[string][]*discovery.SDTargets
-		byHash        map[uint64]*discovery.SDTargets
-		vAct, vDrop   string
-		nByHash       int
+		step        int
+		act, drop   map[string][]*discovery.SDTargets
+		byHash      map[uint64]*discovery.SDTargets
+		vAct, vDrop string
+		nByHash     int
 	}
 	var snaps []snap
 	for si, st := range steps {
@@ -294,8 +294,8 @@ func runC17Sequential(w *core.WorkerCtx, idx int, res *core.CaseResult) {
 // monitor 2: linearizability of reads against writes (porcupine)
 
 type linIn struct {
-	Op    string // update | reload | readActive | readDrop | readByHash
-	Step  c17Step
+	Op   string // update | reload | readActive | readDrop | readByHash
+	Step c17Step
 }
 
 type linState struct {
